@@ -295,3 +295,30 @@ def _match_sq(t, i):
                 return i
         i += 1
     raise ValueError
+
+
+def _load_io_errorkind():
+    """Variant order of std::io::ErrorKind, read from the rust-src of the toolchain that printed the MIR."""
+    import subprocess
+    try:
+        root = subprocess.run(['rustc', '+nightly', '--print', 'sysroot'], stdout=subprocess.PIPE, text=True).stdout.strip()
+        for rel in ('lib/rustlib/src/rust/library/std/src/io/error.rs', 'lib/rustlib/src/rust/library/core/src/io/error.rs'):
+            path = os.path.join(root, rel)
+            if not os.path.exists(path):
+                continue
+            text = open(path, encoding='utf-8').read()
+            m = re.search(r'pub enum ErrorKind\s*\{', text)
+            if not m:
+                continue
+            end = _match_brace(text, m.end() - 1)
+            names = _variants(text[m.end():end])
+            if 'NotFound' in names:
+                return {n: i for i, n in enumerate(names)}
+    except Exception:
+        pass
+    return None
+
+
+_ek = _load_io_errorkind()
+if _ek:
+    STD_ENUMS['ErrorKind'] = _ek
